@@ -21,23 +21,30 @@ def resStr {α} (f : α → String) : Res α → String
 
 def pf (b : Bool) : String := if b then "pass" else "fail"
 
-def bitsToH (start : Nat) (bits : String) : List H :=
-  if bits = "-" then [] else
-  (bits.toList.zipIdx).map fun (c, i) => { id := start + i, verdict := c = '1' }
+/-- "0+,2-,5+" → handlers with explicit ids and verdicts; "-" = none -/
+def parseHs (t : String) : Option (List H) :=
+  if t = "-" then some [] else
+  (t.splitOn ",").mapM fun x =>
+    let cs := x.toList
+    match cs.reverse with
+    | '+' :: r => (String.ofList r.reverse).toNat?.map fun i => { id := i, verdict := true }
+    | '-' :: r => (String.ofList r.reverse).toNat?.map fun i => { id := i, verdict := false }
+    | _ => none
 
 def idsStr (l : List Nat) : String := ",".intercalate (l.map toString)
 
 def poolOp (args : List String) : Option String :=
   match args with
   | ["out", a, t, ok] =>
-    let allH := bitsToH 0 a
-    let typedH := bitsToH allH.length t
-    let r := handlerSend allH typedH (if ok = "1" then some [1] else none)
-    some ("log " ++ idsStr r.1 ++ " | enq " ++ (if r.2.isSome then "1" else "0"))
+    match parseHs a, parseHs t with
+    | some allH, some typedH =>
+      let r := handlerSend allH typedH (if ok = "1" then some [1] else none)
+      some ("log " ++ idsStr r.1 ++ " | enq " ++ (if r.2.isSome then "1" else "0"))
+    | _, _ => none
   | ["in", a, t] =>
-    let allH := bitsToH 0 a
-    let typedH := bitsToH allH.length t
-    some ("log " ++ idsStr (handlerServe allH typedH))
+    match parseHs a, parseHs t with
+    | some allH, some typedH => some ("log " ++ idsStr (handlerServe allH typedH))
+    | _, _ => none
   | _ => none
 
 def stepLine (line : String) : String :=
